@@ -669,6 +669,7 @@ func runC04(c *Ctx) {
 		cells := rtl.Params[1]
 		okCols, okCopy, okBlank := false, false, false
 		nOther := 0
+		condCols := false
 		eachInstr(rtl, func(in ssa.Instruction) {
 			st, isSt := in.(*ssa.Store)
 			if !isSt {
@@ -682,6 +683,9 @@ func runC04(c *Ctx) {
 			if call, isCall := st.Val.(*ssa.Call); isCall && call.Call.StaticCallee() != nil && call.Call.StaticCallee().Name() == "CellPropertyExtractLinesWidths" {
 				if ia2, isIA2 := call.Call.Args[0].(*ssa.IndexAddr); isIA2 && ia2.X == ssa.Value(cells) && ia2.Index == ia.Index {
 					okCols = true
+					if condInsideLoop(in.Block()) {
+						condCols = true
+					}
 				}
 				return
 			}
@@ -706,6 +710,9 @@ func runC04(c *Ctx) {
 			}
 		})
 		r.Check("R04.2", FuncName(rtl), "column c of a row is measured from cell c", rtl.Pos(), okCols, "")
+		if okCols {
+			r.Check("R04.2", FuncName(rtl), "the lines of every cell of the row are fetched, whatever the cell holds", rtl.Pos(), !condCols, "some cells are skipped under a condition: their text never reaches the output")
+		}
 		r.Check("R04.2", FuncName(rtl), "line l, column c of a row is line l of cell c", rtl.Pos(), okCopy, "")
 		if !okBlank {
 			// no explicit blank store: fine when every line's slice is freshly made (zeroed) for that line alone
